@@ -600,6 +600,19 @@ def collect(ck, scs, results, hist):
     cases, scan_cases = [], []
     nbad = 0
     for sc, r in zip(scs, results):
+        if not r.get("ok") and str(r.get("error", "")).startswith("WallTimeout"):
+            # run it once more, alone (an overloaded machine can make a healthy scenario slow)
+            r2 = run_scenarios([sc], timeout=400)[0]
+            if r2.get("ok"):
+                r = r2
+            else:
+                hist["failed_runs"] += 1
+                nbad += 1
+                ck.violation(f"the consumer run did not finish: the client or the application calling it loops without "
+                             f"making progress (scenario {sc['id']}): {r2.get('error', '')[:200]}",
+                             {"scenario": sc, "what": "run did not finish", "error": r2.get("error", "")[:400]},
+                             signature="sim:run-did-not-finish")
+                continue
         if not r.get("ok"):
             hist["failed_runs"] += 1
             ck.obligation(f"correspondence:simulation-ran:{sc['id']}", False, (r.get("error", "") + r.get("tb", ""))[-600:])
